@@ -1033,6 +1033,26 @@ func callBuiltin(caller *frame, callpos token.Pos, fn *ssa.Builtin, args []value
 		}
 		return nil
 
+	case "clear":
+		switch m := args[0].(type) {
+		case *omap:
+			if m != nil {
+				m.keys, m.vals, m.idx, m.nsym = nil, nil, nil, 0
+			}
+		case []value:
+			if len(m) > 0 {
+				et := fn.Type().(*types.Signature).Params().At(0).Type().Underlying().(*types.Slice).Elem()
+				for i := range m {
+					m[i] = zero(et)
+				}
+			}
+		}
+		return nil
+
+	case "Sizeof":
+		t := fn.Type().(*types.Signature).Params().At(0).Type()
+		return uintptr(fr.i.p.Sizes.Sizeof(t))
+
 	case "print", "println": // print(any, ...)
 		ln := fn.Name() == "println"
 		var buf bytes.Buffer
